@@ -114,7 +114,7 @@ func (f *Frame) inline(callee *ssa.Function, fc *FuncContract, args []Val, free 
 		label:     fmt.Sprintf("%s/%s@%d", f.label, callee.Name(), n),
 		env:       map[ssa.Value]Val{},
 		entryHeap: f.entryHeap, callStack: append(append([]*ssa.Function{}, f.callStack...), f.fn),
-		closures: f.closures, frameMS: f.frameMS,
+		closures: f.closures, frameMS: f.frameMS, dctx: f.dctx,
 	}
 	for i, p := range callee.Params {
 		if i < len(args) {
@@ -812,15 +812,20 @@ func (f *Frame) makeClosure(ins *ssa.MakeClosure, st State) (Val, State) {
 // ---- defers ----
 
 func (f *Frame) runDefers(st State, panicking bool) State {
-	for i := len(f.defers) - 1; i >= 0; i-- {
-		d := f.defers[i]
-		// exits produced while running a deferred call during a panic are themselves panic exits; keep simple:
-		saved := f.defers
-		f.defers = nil
-		nst, _ := f.call(d, st)
-		f.defers = saved
+	return f.runDefersCtx(st, &deferCtx{})
+}
+
+func (f *Frame) runDefersCtx(st State, ctx *deferCtx) State {
+	saved := f.defers
+	savedCtx := f.dctx
+	f.defers = nil
+	f.dctx = ctx
+	for i := len(saved) - 1; i >= 0; i-- {
+		nst, _ := f.call(saved[i], st)
 		st = nst
 	}
+	f.defers = saved
+	f.dctx = savedCtx
 	return st
 }
 
@@ -874,8 +879,22 @@ func (f *Frame) builtin(b *ssa.Builtin, ins ssa.CallInstruction, st State) (Stat
 		st.Heap = st.Heap.Set(mapSizeComp, vc.Define("h.MS", nms))
 		return st, Val{T: IntLit(0)}
 	case "recover":
-		f.fail("recover() outside the supported idiom")
-		vc.Outside["recover"] = true
+		// recover() inside a deferred call: returns the panic value and stops the
+		// panic; nil when the function is not panicking.  The supported idiom calls
+		// recover() unconditionally at the start of the deferred function.
+		if f.dctx == nil {
+			f.fail("recover() outside a deferred call")
+			vc.Outside["recover outside deferred call"] = true
+			return st, Val{T: f.w.Sorts.Zero(SIface)}
+		}
+		if ins.Block().Index != 0 {
+			f.fail("conditional recover() is outside the subset")
+			vc.Outside["conditional recover"] = true
+		}
+		if f.dctx.panicking {
+			f.dctx.recovered = true
+			return st, Val{T: f.dctx.pv}
+		}
 		return st, Val{T: f.w.Sorts.Zero(SIface)}
 	case "print", "println":
 		return st, Val{T: IntLit(0)}
